@@ -64,3 +64,60 @@ func sigAlgTable(g *genCtx) string {
 	g.facts["defaultSigAlgs"] = defaults
 	return "/-- default allow-list of `toJoseSignatureAlgorithms` (used when the configured list is empty) -/\ndef defaultSigAlgs : List String := " + leanStrList(defaults) + "\n"
 }
+
+// tokenTypeTable: the literal `var AllTokenTypes = []TokenType{...}` resolved through the constants next to it
+func tokenTypeTable(g *genCtx) string {
+	f := g.file("pkg/oidc/token_request.go")
+	if f == nil {
+		return "def allTokenTypes : List String := UNSUPPORTED_no_file\n"
+	}
+	consts := map[string]string{}
+	var names []string
+	for _, d := range f.Decls {
+		gd, ok := d.(*ast.GenDecl)
+		if !ok {
+			continue
+		}
+		for _, sp := range gd.Specs {
+			vs, ok := sp.(*ast.ValueSpec)
+			if !ok {
+				continue
+			}
+			for i, n := range vs.Names {
+				if i < len(vs.Values) {
+					if lit, ok := vs.Values[i].(*ast.BasicLit); ok {
+						consts[n.Name] = strings.Trim(lit.Value, "\"")
+					}
+					if n.Name == "AllTokenTypes" {
+						if cl, ok := vs.Values[i].(*ast.CompositeLit); ok {
+							for _, e := range cl.Elts {
+								names = append(names, exprString(e))
+							}
+						}
+					}
+				}
+			}
+		}
+	}
+	var vals []string
+	for _, n := range names {
+		v, ok := consts[n]
+		if !ok {
+			g.unsup["allTokenTypes"] = []string{"constant " + n + " not a literal"}
+			return "def allTokenTypes : List String := UNSUPPORTED_constant\n"
+		}
+		vals = append(vals, v)
+	}
+	if len(names) == 0 {
+		g.unsup["allTokenTypes"] = []string{"AllTokenTypes not found"}
+		return "def allTokenTypes : List String := UNSUPPORTED_not_found\n"
+	}
+	g.facts["allTokenTypes"] = vals
+	out := "/-- `oidc.AllTokenTypes` -/\ndef allTokenTypes : List String := " + leanStrList(vals) + "\n"
+	for _, n := range []string{"AccessTokenType", "RefreshTokenType", "IDTokenType", "JWTTokenType"} {
+		if v, ok := consts[n]; ok {
+			out += "def " + n + " : String := " + leanStr(v) + "\n"
+		}
+	}
+	return out
+}
